@@ -94,7 +94,7 @@ def well_formed(spec):
     return reasons
 
 
-class _Hang(Exception):
+class _Hang(BaseException):
     pass
 
 
